@@ -522,6 +522,30 @@ class Repo:
                 raise ValueError('cannot fold binop')
         if isinstance(expr, ast.UnaryOp) and isinstance(expr.op, ast.USub):
             return -self.fold(module, expr.operand, _depth + 1)
+        if isinstance(expr, (ast.GeneratorExp, ast.ListComp, ast.SetComp)) and len(expr.generators) == 1 \
+                and not expr.generators[0].ifs and isinstance(expr.generators[0].target, ast.Name):
+            # `chr(i) for i in range(a, b)` / `i for i in range(...)` over constant bounds
+            g = expr.generators[0]
+            it = g.iter
+            if isinstance(it, ast.Call) and isinstance(it.func, ast.Name) and it.func.id == 'range' and 1 <= len(it.args) <= 3 and not it.keywords:
+                bounds = [self.fold(module, a, _depth + 1) for a in it.args]
+                if all(isinstance(b, int) and not isinstance(b, bool) for b in bounds) and len(range(*bounds)) <= 0x110000:
+                    elt, var = expr.elt, g.target.id
+                    if isinstance(elt, ast.Name) and elt.id == var:
+                        vals = tuple(range(*bounds))
+                    elif isinstance(elt, ast.Call) and isinstance(elt.func, ast.Name) and elt.func.id == 'chr' and len(elt.args) == 1 \
+                            and isinstance(elt.args[0], ast.Name) and elt.args[0].id == var:
+                        vals = tuple(chr(i) for i in range(*bounds))
+                    else:
+                        raise ValueError('cannot fold comprehension element')
+                    return frozenset(vals) if isinstance(expr, ast.SetComp) else vals
+            raise ValueError('cannot fold comprehension')
+        if isinstance(expr, ast.Call) and isinstance(expr.func, ast.Attribute) and expr.func.attr == 'join' and len(expr.args) == 1 and not expr.keywords:
+            sep = self.fold(module, expr.func.value, _depth + 1)
+            parts = self.fold(module, expr.args[0], _depth + 1)
+            if isinstance(sep, (str, bytes)) and isinstance(parts, tuple) and all(isinstance(x, type(sep)) for x in parts):
+                return sep.join(parts)
+            raise ValueError('cannot fold join')
         if isinstance(expr, (ast.Name, ast.Attribute)):
             d = dotted(expr)
             if d is None:
